@@ -61,6 +61,8 @@ FAMILIES = {
     "C27": ["monitor"],
     "C39": ["forward"],
     "C01": ["class", "subscribe"],
+    "C04": ["frame"],
+    "C44": ["frame"],
     "C20": ["class"],
     "C21": ["class"],
     "C23": ["class"],
@@ -78,6 +80,8 @@ def units_for(prop, tier):
         us += forward_units(prop)
     if "class" in fams:
         us += class_units(prop)
+    if "frame" in fams:
+        us.append({"runner": "frame", "prop": prop, "id": f"frame-conditions/{prop}"})
     if "subscribe" in fams:
         us.append({"runner": "subscribe_unit", "prop": prop, "id": "reactivex/observable/observable.py::Observable.subscribe"})
     for u in us:
